@@ -16,7 +16,8 @@
      6  dec (model) <> outcome of Go Unmarshal                     (correspondence)
      7  C16 monitor on the implementation: Go panicked or did not terminate
      71 C16 monitor: input whose identifier octets are not the ones the target type and
-        parameters require (WrongType.expected) was accepted instead of reported as an error *)
+        parameters require (WrongType.expected) was accepted instead of reported as an error
+     72 C16 monitor: input whose outer header announces more contents than there are was accepted *)
 From Coq Require Import List ZArith Bool.
 From Verif Require Import Common.Outcome Common.Bytes Ber.Model Ber.X690 Ber.WrongType Ber.Roundtrip.
 Import ListNotations.
@@ -126,7 +127,11 @@ Definition check_dcase (c : dcase) : list (Z * Z) :=
     (* wrongly-typed input must be an error: the identifier the input starts with is the one
        the type and parameters call for ([expected], the specification of Ber/WrongType.v) *)
     match parse_tl (dc_bytes c) with
-    | Ok (tl, _) => if expected (dc_ty c) (dc_p c) tl then [] else [(i, 71)]
+    | Ok (tl, off) =>
+      (if expected (dc_ty c) (dc_p c) tl then [] else [(i, 71)]) ++
+      (* truncated / over-long length: the contents the header announces are not all there
+         (C16_truncated_is_error) *)
+      (if off + t_len tl >? zlen (dc_bytes c) then [(i, 72)] else [])
     | _ => [(i, 71)]
     end
   | _ => []
